@@ -88,6 +88,12 @@ theorem usesFp_of_isDouble (fp : List Kind) (e : FExpr) (h : e.isDouble = true) 
     simp only [FExpr.isDouble, FExpr.flags] at h
     simp [usesFp, h]
 
+/-- `uses_fp` is true of every operand the statement calls a floating-point value -/
+theorem usesFp_of_hasFp (fp : List Kind) (e : FExpr) (h : hasFp e = true) : usesFp fp e = true := by
+  simp only [hasFp, List.any_eq_true] at h
+  obtain ⟨pe, hpe, hd⟩ := h
+  exact usesFp_of_occ fp true true e pe hpe hd
+
 /-! ### the recursive guard walk reaches every sub-expression -/
 
 mutual
@@ -122,8 +128,8 @@ theorem guardHitAt_of_cmp (cfg : Cfg) (e : FExpr) (h : isCmpClockFp e = true) (h
     obtain ⟨⟨⟨_, ha⟩, hb⟩, hab⟩ := h
     have hfp : usesFpL cfg.fpKinds [a, b] = true := by
       rcases hab with ⟨_, hd⟩ | ⟨hd, _⟩
-      · simp [usesFpL, usesFp_of_isDouble cfg.fpKinds b hd]
-      · simp [usesFpL, usesFp_of_isDouble cfg.fpKinds a hd]
+      · simp [usesFpL, usesFp_of_hasFp cfg.fpKinds b hd]
+      · simp [usesFpL, usesFp_of_hasFp cfg.fpKinds a hd]
     simp only [opOf] at hk
     simp only [guardHitAt, hk, FExpr.arg, List.getD_cons_zero, List.getD_cons_succ, ha, hb, hfp]
     simp
@@ -180,7 +186,7 @@ theorem visitAssignment_of_assignFp (cfg : Cfg) (a : FExpr) (h : isAssignFp a = 
     simp only [isAssignFp, Bool.and_eq_true, Bool.not_eq_true'] at h
     obtain ⟨⟨hk, hl⟩, hr⟩ := h
     have hfp : usesFp cfg.fpKinds (.node k f v [l, r]) = true := by
-      simp [usesFp, usesFpL, usesFp_of_isDouble cfg.fpKinds r hr]
+      simp [usesFp, usesFpL, usesFp_of_hasFp cfg.fpKinds r hr]
     simp only [detects, Bool.or_eq_true, Bool.not_eq_true'] at hd
     unfold visitAssignment
     simp only [hk, if_true, hfp, Bool.true_and]
@@ -195,7 +201,7 @@ theorem visitAssignment_of_assignFp (cfg : Cfg) (a : FExpr) (h : isAssignFp a = 
 
 theorem visitVariable_of_initFp (cfg : Cfg) (f : SymFlags) (init : FExpr) (h : isInitFp f init = true)
     (hd : detects cfg (.init (!f.clkD)) = true) : visitVariable cfg f init = true := by
-  simp only [isInitFp, Bool.and_eq_true, List.any_eq_true] at h
+  simp only [isInitFp, hasFp, Bool.and_eq_true, List.any_eq_true] at h
   obtain ⟨hc, pe, hpe, hdbl⟩ := h
   have hne := walk_nonempty true true init pe hpe
   have hfp := usesFp_of_occ cfg.fpKinds true true init pe hpe hdbl
